@@ -435,7 +435,8 @@ def directed_cases():
               b"127.0.0.1: 80", b"127.0.0.1:0x50", b"127.0.0.1:080", b"127.0.0.1:010", b"127.0.0.1:+7", b"127.0.0.1:-1", b"127.0.0.1:99999999999999999999", b"localhost:80",
               b"nosuch.example:80", b":80", b"::1:80", b"", b"a:b:c", b"127.0.0.1:80x"):
         add("tcp:" + h.decode(), SPEC_OK + b'device "d0" "s" "' + h + b'"\nnode "n1" "d0"\n')
-    for f in (b"quiet", b"quiet,quiet", b",,quiet,", b"", b"loud", b"quiet,loud", b"Quiet"):
+    for f in (b"quiet", b"quiet,quiet", b",,quiet,", b"", b"loud", b"quiet,loud", b"Quiet",
+              b"quiet, ", b" ", b",\t,", b" quiet", b"quiet ,quiet", b"quiet,\t", b", ,", b"quiet,,", b"\t"):      # blank-only / padded options
         add("tcp-flags:" + f.decode(), SPEC_OK + b'device "d0" "s" "127.0.0.1:9" "' + f + b'"\nnode "n1" "d0"\n')
     add("serial-noflags-null", SPEC_OK + b'device "d0" "s" "/dev/null"\nnode "n1" "d0"\n')                     # F24
     add("serial-flags-null", SPEC_OK + b'device "d0" "s" "/dev/null" "9600,8n1"\nnode "n1" "d0"\n')
